@@ -80,6 +80,20 @@ pub fn base_workspaces() -> Vec<(String, Workspace)> {
 pub fn pathological() -> Vec<(String, Workspace)> {
     let s = |name: &str, mods: &[(&str, &str)]| (name.to_string(), Workspace::single(mods));
     vec![
+        // the same names declared in two modules and used OUTSIDE function bodies (type fields,
+        // alias bodies, constant initialisers) in several other modules, unqualified and qualified
+        s(
+            "module-level-twins",
+            &[
+                ("p", "pub type T { A }\npub const c = 1\npub fn f() { 1 }\n"),
+                ("q", "pub type T { B }\npub const c = 2\npub fn f() { 2 }\n"),
+                ("u1", "import p.{type T, c, f}\npub type U1 { U1(x: T) }\npub type Al1 = T\npub const k1 = c\npub const h1 = f\npub fn g1(t: T) { c }\n"),
+                ("u2", "import q.{type T, c, f}\npub type U2 { U2(x: T) }\npub type Al2 = T\npub const k2 = c\npub const h2 = f\npub fn g2(t: T) { c }\n"),
+                ("u3", "import p\nimport q\npub type U3 { U3(x: p.T, y: q.T) }\npub type Al3 = q.T\npub const k3 = q.c\npub const k4 = p.c\npub const h3 = q.f\n"),
+                ("a0", "import q\npub type U4 { U4(y: q.T) }\npub type Al4 = q.T\npub const k5 = q.c\n"),
+                ("z9", "import p\npub type U5 { U5(y: p.T) }\npub type Al5 = p.T\npub const k6 = p.c\n"),
+            ],
+        ),
         s("extra-clause-pattern", &[("m", "fn f() { case 1 { x, y -> y } }")]),
         s("missing-clause-pattern", &[("m", "fn f() { case 1, 2 { x -> x } }")]),
         s("unequal-alternatives", &[("m", "fn f(v) { case v { #(a, _) | #(_, b) -> a } }")]),
